@@ -140,7 +140,7 @@ class AtomsEngine(Engine):
     name = 'session_atoms'
     max_ops = 50
     expected_probes = ['inplace_overwrite_other_dtype', 'alias_candidate_used', 'refused_raised', 'scribble_result',
-                       'scribble_safecopy', 'setitem_overlap', 'extend_new_props_both_sides', 'natypes_grew', 'readonly_reassign_refused', 'noncontiguous_input', 'atype_lt1_scalar_forms', 'default_constructed_object', 'types_renumbered_through_prop_atype', 'scaled_access_by_a_id', 'symbol_as_numpy_string', 'integer_typed_positions', 'atoms_df_scale_list', 'assigned_a_view_of_itself', 'view_set_through_mapping_method', 'refused_setitem_same_number_of_properties', 'refused_prop_atype_on_new_key', 'refused_system_constructor', 'atoms_df_scale_given_as_one_name', 'held_table_checked_after_edits', 'scribble_on_table',
+                       'scribble_safecopy', 'setitem_overlap', 'extend_new_props_both_sides', 'natypes_grew', 'readonly_reassign_refused', 'noncontiguous_input', 'atype_lt1_scalar_forms', 'default_constructed_object', 'types_renumbered_through_prop_atype', 'scaled_access_by_a_id', 'symbol_as_numpy_string', 'integer_typed_positions', 'atoms_df_scale_list', 'assigned_a_view_of_itself', 'view_set_through_mapping_method', 'refused_setitem_same_number_of_properties', 'refused_prop_atype_on_new_key', 'refused_system_constructor', 'refused_new_property_of_wrong_length', 'refused_value_shaped_like_one_entry', 'scaled_read_of_a_non_vector', 'atoms_df_scale_given_as_one_name', 'held_table_checked_after_edits', 'scribble_on_table',
                        'negative_index', 'mask_index', 'scaled_write', 'prop_atype_single_new_key', 'df_checked',
                        'box_set_with_possible_sharers', 'box_alias_candidate_used']
     rule = ('Each run keeps a pool of up to 6 live Atoms/System objects (parent/child links recorded) and applies up to '
@@ -469,7 +469,7 @@ class AtomsEngine(Engine):
         m = st['pool'][slot]
         what = r.choice(['wrong_first_dim', 'atype_lt1', 'setitem_mismatch', 'too_many_masses', 'a_id_and_index',
                          'unknown_key', 'value_without_key', 'prop_atype_bad', 'setitem_nonatoms', 'extend_bad',
-                         'setitem_mismatch', 'prop_atype_bad', 'system_ctor_refused'])
+                         'setitem_mismatch', 'prop_atype_bad', 'system_ctor_refused', 'new_key_wrong_len', 'entry_shaped_value', 'scaled_get_nonvector'])
         op = {'op': 'refuse', 'o': slot, 'what': what}
         if what == 'wrong_first_dim':
             key = r.choice(list(m.reg))
@@ -501,6 +501,29 @@ class AtomsEngine(Engine):
                 rows = 2 if (m.n >= 2 and r.random() < 0.6) else 1
                 op.update(spec=self._spec(ctx, st, rows, names=keep), index={'k': 'int', 'i': 0},
                           how=r.choice(['slice', 'list'] if rows == 2 else ['int', 'negint', 'slice', 'list']), via=r.choice(['atoms', 'prop', 'ix']))
+        elif what == 'new_key_wrong_len':
+            names = [nm for nm in st['reg'] if nm not in m.reg]
+            if not names or m.n < 2:
+                op['what'] = 'a_id_and_index'
+            else:
+                key = names[0]
+                cls, ts = st['reg'][key]
+                op.update(key=key, bad=[self._val(ctx, cls, ts, key) for _ in range(m.n + 1)], good=[self._val(ctx, cls, ts, key) for _ in range(m.n)],
+                          via=r.choice(['attr', 'attr', 'view', 'prop']))
+        elif what == 'entry_shaped_value':
+            keys = [nm for nm, (c2, t2) in m.reg.items() if len(t2) >= 1 and nm != 'atype']
+            if not keys:
+                op['what'] = 'a_id_and_index'
+            else:
+                key = r.choice(keys)
+                cls, ts = m.reg[key]
+                op.update(key=key, value=self._val(ctx, cls, ts, key), via=r.choice(['attr', 'view', 'prop', 'sys_prop']))
+        elif what == 'scaled_get_nonvector':
+            keys = [nm for nm, (c2, t2) in m.reg.items() if tuple(t2) != (3,) and c2 == 'float']
+            if not keys:
+                op['what'] = 'a_id_and_index'
+            else:
+                op.update(key=r.choice(keys), junk=r.randint(50, 60))
         elif what == 'prop_atype_bad':
             names = [nm for nm in st['reg'] if nm not in m.reg]
             op.update(atype=m.natypes() + r.randint(1, 3), key=(names[0] if (names and r.random() < 0.6) else 'pos'))
@@ -1502,6 +1525,58 @@ class AtomsEngine(Engine):
             ok, res = ctx.sut(atoms.prop_atype, key, zero_of(cls, ts) if ts else 1.5, atype=op['atype'])
             if key != 'pos':
                 ctx.probe('refused_prop_atype_on_new_key')
+            must = True
+        elif what == 'new_key_wrong_len':
+            key = op['key']
+            if key in m.reg or len(op['bad']) in (1, m.n) or len(op['good']) != m.n:
+                return {'skip': 1}
+            v = np.array(op['bad'])
+            f = {'attr': lambda: setattr(atoms, key, v), 'view': lambda: atoms.view.__setitem__(key, v),
+                 'prop': lambda: atoms.prop(key=key, value=v)}[op['via']]
+            ok, res = ctx.sut(f)
+            ctx.probe('refused_new_property_of_wrong_length')
+            if True:
+                # the caller assigns again with the right length, the same way (whether or not the first attempt was refused):
+                # now it is a per-atom property like any other
+                good = np.array(op['good'])
+                f2 = {'attr': lambda: setattr(atoms, key, good), 'view': lambda: atoms.view.__setitem__(key, good),
+                      'prop': lambda: atoms.prop(key=key, value=good)}[op['via']]
+                ctx.must('C06.X', f2, klass='retry-after-refusal/' + op['via'])
+                if key not in atoms.view:
+                    raise Violation('C06.A2', {'what': 'a full-length value was assigned under a new name and accepted, but no per-atom property exists',
+                                               'key': key, 'via': op['via'], 'first_attempt_refused': not ok}, klass='retry-after-refusal/no-property')
+                ok = False          # the object is as the model says: nothing to adopt
+                cls, ts = st['reg'][key]
+                m.reg[key] = (kind_of(good), ts)
+                for i, row in enumerate(m.rows):
+                    row[key] = self._cell(kind_of(good), ts, op['good'][i])
+            must = True
+        elif what == 'entry_shaped_value':
+            key = op['key']
+            if key not in m.reg:
+                return {'skip': 1}
+            cls, ts = m.reg[key]
+            if m.n in (1, ts[0]) or m.n == 0:
+                return {'skip': 1}              # then one entry IS a legal length-1 / full-length value
+            v = np.array(op['value']).reshape(ts)
+            via = op['via'] if (op['via'] != 'sys_prop' or m.kind == 'system') else 'prop'
+            f = {'attr': lambda: setattr(atoms, key, v), 'view': lambda: atoms.view.__setitem__(key, v),
+                 'prop': lambda: atoms.prop(key=key, value=v),
+                 'sys_prop': lambda: m.real.atoms_prop(key=key, value=v)}[via]
+            ok, res = ctx.sut(f)
+            ctx.probe('refused_value_shaped_like_one_entry')
+            must = True
+        elif what == 'scaled_get_nonvector':
+            key = op['key']
+            if m.kind != 'system' or key not in m.reg or m.n < 1:
+                return {'skip': 1}
+            ok, res = ctx.sut(m.real.atoms_prop, key=key, scale=True)
+            ctx.probe('scaled_read_of_a_non_vector')
+            if ok and isinstance(res, np.ndarray) and res.flags.writeable and res.dtype.kind == 'f':
+                # not refused: then it is a copying accessor's result like any other, and the caller's to write on
+                res[...] = op.get('junk', 55)
+                ctx.fault('scribble_result')
+                return {'refused': False, 'via': what}
             must = True
         elif what == 'system_ctor_refused':
             if m.kind != 'atoms' or m.n < 1:
